@@ -67,6 +67,18 @@ def stateV01Consistent (fields : List (Str × AVal)) : Bool :=
     (predicateVerOf declared).isSome && predicateVerOf declared == versionOfFormat fmt
   | _, _ => false
 
+/-- one member of a struct, read with the decoder `d` of its type -/
+def decFieldWith (d : FTy → JV → Option AVal) (kvs : List (Str × JV)) (fs : FieldSpec) : Option (Str × AVal) :=
+  match lookupJ fs.name kvs with
+  | Option.some j => (d fs.ty j).map fun v => (fs.name, v)
+  | Option.none => if fs.required then Option.none else Option.some (fs.name, AVal.none)
+
+/-- one member of a struct, written with the encoder `e` of its type (`None` skipped or `null`) -/
+def encFieldWith (e : FTy → AVal → JV) (p : FieldSpec × (Str × AVal)) : Option (Str × JV) :=
+  match p.2.2 with
+  | .none => if p.1.skipNone then Option.none else Option.some (p.1.name, JV.null)
+  | v => Option.some (p.1.name, e p.1.ty v)
+
 /-- decoding; fuel bounds the nesting of structs -/
 def dec (E : Ext) : Nat → FTy → JV → Option AVal
   | 0, _, _ => Option.none
@@ -83,10 +95,7 @@ def dec (E : Ext) : Nat → FTy → JV → Option AVal
     | Option.some s =>
       if s.denyUnknown && !(kvs.all fun p => decide (p.1 ∈ fieldNames s)) then Option.none
       else
-        match allOpt (fun fs : FieldSpec =>
-            match lookupJ fs.name kvs with
-            | Option.some j => (dec E f fs.ty j).map fun v => (fs.name, v)
-            | Option.none => if fs.required then Option.none else Option.some (fs.name, AVal.none)) s.fields with
+        match allOpt (decFieldWith (dec E f) kvs) s.fields with
         | Option.none => Option.none
         | Option.some fields =>
           if n = sStateV01 && stateV01ChecksPredicateType && !stateV01Consistent fields then Option.none
@@ -110,10 +119,7 @@ def enc : Nat → FTy → AVal → JV
     match findSchema n with
     | Option.none => .null
     | Option.some s =>
-      .obj ((s.fields.zip fields).filterMap fun p =>
-        match p.2.2 with
-        | .none => if p.1.skipNone then Option.none else Option.some (p.1.name, JV.null)
-        | v => Option.some (p.1.name, enc f p.1.ty v))
+      .obj ((s.fields.zip fields).filterMap (encFieldWith (enc f)))
   | f + 1, .ext _, .struct n fields => enc f (.ref n) (.struct n fields)
   | _ + 1, .ext _, .ext _ j => j
   | _ + 1, _, _ => .null
